@@ -403,23 +403,36 @@ func (rn *runner) exec(op string) string {
 			return "skip"
 		}
 		var adv uint64
+		var set int64
 		var ok bool
 		if w[2] == "plain" {
-			adv, ok = quic.VerifAdvertisedCIDLimit("", "", "")
+			adv, set, ok = quic.VerifAdvertisedCIDLimit("", "", "")
 		} else if len(w) >= 5 {
-			adv, ok = quic.VerifAdvertisedCIDLimit(w[2], w[3], w[4])
+			adv, set, ok = quic.VerifAdvertisedCIDLimit(w[2], w[3], w[4])
 		}
 		if !ok {
 			return "skip"
 		}
 		rn.m = quic.VerifNewConnIDManager(unhx(w[1]), rn.hm)
-		if w[2] != "plain" {
-			rn.m.SetConnectionIDLimit(adv) // as newUClientConnection does
+		if set >= 0 {
+			rn.m.SetConnectionIDLimit(uint64(set)) // as newUClientConnection does
 		}
 		rn.adv = adv
 		rn.inited = true
 		rn.zeroLen = len(unhx(w[1])) == 0
-		return fmt.Sprintf("adv=%d", adv) + rn.suffix(op)
+		return fmt.Sprintf("adv=%d set=%d", adv, set) + rn.suffix(op)
+	case "limit": // limit <n>: a custom QUICSpec advertises active_connection_id_limit n (0: parameter absent); before any frame
+		if len(w) < 2 || rn.newSeen {
+			return "skip"
+		}
+		rn.ensureM()
+		n := u64(w[1])
+		rn.m.SetConnectionIDLimit(n)
+		rn.adv = n
+		if n == 0 {
+			rn.adv = protocol.DefaultActiveConnectionIDLimit
+		}
+		return "ok" + rn.suffix(op)
 	case "new": // new <seq> <rpt> <hexid> <hextok>
 		if len(w) < 5 {
 			return "skip"
@@ -863,6 +876,13 @@ func (rn *runner) GenOp(r *vh.Rand, i int) string {
 			q := ids[r.Intn(len(ids))]
 			return fmt.Sprintf("init %s %s %s %s", hx(r.Bytes(int(r.Range(8, 20)))), q.Client, q.Version, q.Fingerprint)
 		}
+	}
+	if i == 1 && !rn.zeroLen && !rn.genNewSeen && r.Chance(25) {
+		n := r.Range(2, 8)
+		if r.Chance(10) {
+			n = r.Range(0, 12)
+		}
+		return fmt.Sprintf("limit %d", n)
 	}
 	if r.Chance(28) {
 		return rn.genG(r)
